@@ -242,7 +242,11 @@ class P:
         if tok[0] == 'id':
             path = [self.eat()[1]]
             while self.at('::'):
-                self.eat(); path.append(self.eat('id')[1])
+                self.eat()
+                if self.at('<'):
+                    self.skip_generic_args()       # turbofish `Uint::<LIMBS>::new`
+                    continue
+                path.append(self.eat('id')[1])
             if self.at('('):
                 return ('call', path, self.args())
             if self.at('{') and not self.nostruct and len(path) == 1 and path[0][0].isupper():
@@ -267,6 +271,62 @@ class P:
                 self.eat()
         self.eat('op', '}')
         return ('struct', name, fields)
+
+    def skip_generic_args(self):
+        """`<LIMBS>` / `<{ N }>` after `::` in a path: skipped (the limb count of the callee is the caller's)"""
+        self.eat('op', '<')
+        depth = 1
+        while depth:
+            tok = self.eat()
+            if tok[0] == 'eof':
+                raise Unsupported('unterminated generic arguments')
+            if tok == ('op', '<'):
+                depth += 1
+            elif tok == ('op', '>'):
+                depth -= 1
+            elif tok == ('op', '>>'):
+                depth -= 2
+
+    def field_indexed_assign(self, stmts):
+        """`name.limbs[idx] op= e;` (a `Uint` is the list of its limbs) -> ('assign_idx', name, idx, op, e)"""
+        save = self.i
+        name = self.eat()[1]
+        self.eat('op', '.')
+        self.eat('id', 'limbs')
+        self.eat('op', '[')
+        idx = self.expr()
+        self.eat('op', ']')
+        if not (self.peek()[0] == 'op' and self.peek()[1] in ASSIGN_OPS):
+            self.i = save
+            return False
+        op = self.eat()[1]
+        rhs = self.expr()
+        if not self.at('}'):
+            self.eat('op', ';')
+        stmts.append(('assign_idx', name, idx, op, rhs))
+        return True
+
+    def if_return(self, stmts):
+        """`if cond { return e; }` (an early return, no `else`) -> ('ifret', cond, e); anything else: position untouched"""
+        save = self.i
+        try:
+            self.eat('id', 'if')
+            self.nostruct = True
+            cond = self.expr()
+            self.nostruct = False
+            self.eat('op', '{')
+            self.eat('id', 'return')
+            e = self.expr()
+            if self.at(';'):
+                self.eat()
+            self.eat('op', '}')
+            if self.at('else'):
+                raise Unsupported('if .. else')
+        except Unsupported:
+            self.i, self.nostruct = save, False
+            return False
+        stmts.append(('ifret', cond, e))
+        return True
 
     # ---- statements
     def let_(self):
@@ -339,9 +399,15 @@ class P:
                 name = self.eat()[1]
                 op = self.eat()[1]
                 rhs = self.expr()
-                self.eat('op', ';')
+                if not self.at('}'):               # `i += 1 }`: the last statement of a block may omit the `;`
+                    self.eat('op', ';')
                 stmts.append(('assign', name, op, rhs))
             elif tok[0] == 'id' and self.peek(1) == ('op', '[') and self.indexed_assign(stmts):
+                pass
+            elif (tok[0] == 'id' and self.peek(1) == ('op', '.') and self.peek(2) == ('id', 'limbs')
+                  and self.peek(3) == ('op', '[') and self.field_indexed_assign(stmts)):
+                pass
+            elif tok == ('id', 'if') and self.if_return(stmts):
                 pass
             else:
                 e = self.expr()
@@ -465,6 +531,10 @@ def ty_of(t, self_ty):
     m = re.match(r'\((.*)\)$', t)
     if m:
         return tuple(ty_of(x, self_ty) for x in m.group(1).split(','))
+    m = re.match(r'ConstCtOption\s*<\s*(.+?)\s*>$', t)
+    if m:
+        # a `ConstCtOption<T>` is the pair (value, is_some mask), as in CB/Model/Shift.lean
+        return (ty_of(m.group(1), self_ty), 'choice')
     raise Unsupported('type ' + t)
 
 
@@ -550,6 +620,10 @@ class Gen:
             return WIDTH[e[1][0]]
         if k == 'path' and e[1] == ['Limb', 'BITS']:
             return 64
+        if k == 'path' and (e[1] == ['Limb', 'HI_BIT'] or (e[1] == ['Self', 'HI_BIT'] and self.self_ty == 'Limb')):
+            return 63
+        if k == 'path' and e[1] == ['Self', 'BITS'] and self.self_ty == 'Limb':
+            return 64
         if k == 'bin' and e[1] in '+-*':
             a, b = self.const(e[2]), self.const(e[3])
             if a is None or b is None:
@@ -573,6 +647,11 @@ class Gen:
         if where == 'choice' and self.self_ty != 'ConstChoice':
             c = self.ext.get('choice')
             return (c[0], c[1].get(name)) if c else (None, None)
+        if where in ('limb', 'uint') and self.self_ty != {'limb': 'Limb', 'uint': 'Uint'}[where]:
+            # further units holding methods of `Limb` / `Uint<LIMBS>` (listed by the unit under `limb_more` / `uint_more`)
+            for ns, sg in self.ext.get(where + '_more', []):
+                if name in sg:
+                    return ns, sg[name]
         if where in ('limb', 'uint'):
             # a method of `Limb` / `Uint<LIMBS>`: the unit itself when it is the impl of that type, else the unit holding it
             if self.self_ty == {'limb': 'Limb', 'uint': 'Uint'}[where]:
@@ -628,6 +707,17 @@ class Gen:
                 return {'ZERO': '0#64', 'ONE': '1#64', 'MAX': '(~~~0#64)'}[p[1]], 'wrap:1'
             if len(p) == 2 and p[0] == 'Limb' and p[1] == 'BITS':
                 return '64#32', 32
+            if len(p) == 2 and (p[0] == 'Limb' or (p[0] == 'Self' and self.self_ty == 'Limb')) and p[1] == 'HI_BIT':
+                return '63#32', 32
+            if len(p) == 2 and p[0] == 'Self' and self.self_ty == 'Limb' and p[1] == 'BITS':
+                return '64#32', 32
+            if (len(p) == 2 and p[0] in ('Self', 'Uint') and self.self_ty == 'Uint' and self.generic
+                    and env.get(self.generic, (None, None))[1] == 'nat'):
+                if p[1] == 'ZERO':
+                    return f'(List.replicate {env[self.generic][0]} 0#64)', 'uint'
+                if p[1] == 'BITS':
+                    # `Self::BITS: u32 = LIMBS * Limb::BITS` (a `u32`: wraps like the constant would)
+                    return f'(BitVec.ofNat 32 (64 * {env[self.generic][0]}))', 32
             raise Unsupported('path ' + '::'.join(p))
         if k == 'field':
             t, ty = self.ex(e[1], env)
@@ -728,6 +818,13 @@ class Gen:
                 if ta != 'nat' or tb != 'nat':
                     raise Unsupported('index arithmetic')
                 return f'({a} + {b})', 'nat'
+            if want == 'nat' and op == '-':
+                # `i - shift_num`, `LIMBS - 1` on `usize`: truncated subtraction (Rust panics on underflow; never reached
+                # in the translated loops, where the index is in range)
+                a, ta = self.ex(e[2], env, 'nat'); b, tb = self.ex(e[3], env, 'nat')
+                if ta != 'nat' or tb != 'nat':
+                    raise Unsupported('index arithmetic')
+                return f'({a} - {b})', 'nat'
             a, ta = None, None
             # literals take the type of the other operand
             if (e[2][0] == 'lit' and not e[2][2]) or self.is_lit_var(e[2], env):
@@ -768,6 +865,15 @@ class Gen:
             if name == 'overflowing_add':
                 b, tb = self.ex(args[0], env, tr)
                 return f'(({r} + {b}), decide (({r} + {b}) < {r}))', (tr, 'bool')
+            if name in ('wrapping_shr', 'wrapping_shl') and isinstance(tr, int) and len(args) == 1:
+                # the amount (a `u32`) is masked to the bit width
+                b, tb = self.ex(args[0], env, 32)
+                if tb != 32:
+                    raise Unsupported('wrapping shift amount type')
+                return f'({r} {">>>" if name == "wrapping_shr" else "<<<"} ({b} % {tr}#32))', tr
+            if name in ('trailing_zeros', 'trailing_ones') and isinstance(tr, int) and not args:
+                x = atom(r) if name == 'trailing_zeros' else f'(~~~{r})'
+                return (f'(BitVec.ctz {x})' if tr == 32 else f'((BitVec.ctz {x})).setWidth 32'), 32
             if name == 'leading_zeros' and isinstance(tr, int) and not args:
                 return (f'(BitVec.clz {atom(r)})' if tr == 32 else f'((BitVec.clz {atom(r)})).setWidth 32'), 32
             if tr == 'choice':
@@ -902,6 +1008,17 @@ class Gen:
                 self.bind(name, f'{atom(env[name][0])}.set {atom(ix)} {atom(t)}', 'uint', env, lines)
             elif k == 'while':
                 self.do_while(st[1], st[2], env, lines)
+            elif k == 'ifret':
+                # `if cond { return e; }` at the top level of a function: `if cond then e else <the rest>`
+                if declared is not None or getattr(self, 'rty', None) is None:
+                    raise Unsupported('return inside a loop')
+                c, tc = self.ex(st[1], env)
+                if tc != 'bool':
+                    raise Unsupported('condition of type ' + str(tc))
+                t, ty = self.ex(st[2], env, self.rty)
+                if ty != self.rty:
+                    raise Unsupported(f'return type {ty} vs {self.rty}')
+                lines.append(f'if {c} then {t} else')
             else:
                 raise Unsupported('statement ' + k)
 
@@ -954,6 +1071,9 @@ class Gen:
         if not (cond[0] == 'bin' and cond[1] == '>' and cond[2][0] == 'var' and cond[3][0] == 'lit' and cond[3][1] == 0):
             raise Unsupported('loop form')
         i = cond[2][1]
+        if i in env and env[i][1] == 'nat':
+            # (4) the same loop with a `usize` counter (`let mut i = LIMBS;`): structural recursion on the counter itself
+            return self.emit_loop_down(i, body, env, lines)
         if i not in env or not isinstance(env[i][1], int):
             raise Unsupported('loop counter')
         ti, w = env[i]
@@ -1017,6 +1137,75 @@ class Gen:
             for idx, s in enumerate(state):
                 self.bind(s, f'{tmp}{proj(idx, len(state))}', styp[idx], env, lines)
 
+    def emit_loop_down(self, i, body, env, lines):
+        """`while i > 0 { i -= 1; body }` with a `Nat` counter (`let mut i = LIMBS;`, or the counter left by a preceding
+        `while i < BOUND` loop) as an auxiliary definition `<fn>_loop<j> captured.. : Nat → state.. → state` by structural
+        recursion on the counter: round `n + 1` runs the body with `i = n` and recurses with `n`.
+        state = the outer variables the body assigns (arrays included), captured = the other outer variables it reads, both
+        in the order of their declaration in the function."""
+        if not body or not (body[0][0] == 'assign' and body[0][1] == i and body[0][2] == '-='
+                            and body[0][3][0] == 'lit' and body[0][3][1] == 1):
+            raise Unsupported('loop form: the body must start with the decrement of the counter')
+        rest = body[1:]
+        assigned, local = [], set()
+        for st in rest:
+            if st[0] in ('while', 'ifret'):
+                raise Unsupported('nested loop')
+            if st[0] == 'let':
+                local.add(st[1])
+            if st[0] == 'lettuple':
+                local.update(st[1])
+            if st[0] in ('assign', 'assign_idx') and st[1] not in assigned and st[1] not in local:
+                assigned.append(st[1])
+        if i in assigned or not assigned or any(s not in env for s in assigned):
+            raise Unsupported('loop state')
+        state = [v for v in env if v in assigned]
+        used = free_vars(rest, [])
+        captured = [v for v in env if v in used and v not in state and v != i]
+        if any(env[v][1] == 'lit' for v in captured + state):
+            raise Unsupported('loop body uses an untyped counter')
+        self.nloop += 1
+        aux = f'{self.fname}_loop{self.nloop}'
+        env2 = {}
+        for v in captured:
+            env2[v] = (self.fresh('self_' if v == 'self' else v, env2), env[v][1])
+        styp = [env[s][1] for s in state]
+        for s, ty in zip(state, styp):
+            env2[s] = (self.fresh(s, env2), ty)
+        nvar = self.fresh('n', env2)
+        env2[i] = (nvar, 'nat')           # in round `n + 1` the (already decremented) counter is `n`
+        outer, declared = set(env2), set()
+        pat = ', '.join(env2[s][0] for s in state)
+        tup = f'({pat})' if len(state) > 1 else pat
+        capb = ''.join(f' ({env2[v][0]} : {lean_ty(env2[v][1])})' for v in captured)
+        capa = ''.join(f' {env2[v][0]}' for v in captured)
+        saved_cenv, self.cenv = self.cenv, {}
+        lines2 = []
+        try:
+            self.run(rest, env2, lines2, declared)
+        finally:
+            self.cenv = saved_cenv
+        if declared & outer:
+            raise Unsupported('loop body shadows an outer variable')
+        if any(env2[s][1] != ty for s, ty in zip(state, styp)) or env2[i] != (nvar, 'nat'):
+            raise Unsupported('loop state changes type')
+        res = ' × '.join(lean_ty(t) for t in styp)
+        self.aux.append(f'@[gen_defs] def {aux}{capb} : Nat → ' + ' → '.join(lean_ty(t) for t in styp) + f' → {res}\n'
+                        + f'  | 0, {pat} => {tup}\n'
+                        + f'  | {nvar} + 1, {pat} =>\n    ' + '\n    '.join(lines2)
+                        + f'\n    {self.ns}.{aux}{capa} {nvar} ' + ' '.join(env2[s][0] for s in state))
+        callt = (f'({self.ns}.{aux}' + ''.join(f' {atom(env[v][0])}' for v in captured) + f' {atom(env[i][0])} '
+                 + ' '.join(atom(env[s][0]) for s in state) + ')')
+        if len(state) == 1:
+            self.bind(state[0], callt, styp[0], env, lines)
+        else:
+            self.pn += 1
+            tmp = f'p{self.pn}'
+            lines.append(f'let {tmp} := {callt}')
+            for idx, s in enumerate(state):
+                self.bind(s, f'{tmp}{proj(idx, len(state))}', styp[idx], env, lines)
+        env[i] = ('0', 'nat')
+
     LIT_WIDTHS = (8, 32, 64, 128)
 
     def emit_loop_up(self, cond, body, env, lines):
@@ -1036,10 +1225,15 @@ class Gen:
         step = body[-1][3][1]
         rest = body[:-1]
         assigned = []
+        local = set()
         for st in rest:
             if st[0] == 'while':
                 raise Unsupported('nested loop')
-            if st[0] in ('assign', 'assign_idx') and st[1] not in assigned:
+            if st[0] == 'let':
+                local.add(st[1])
+            if st[0] == 'lettuple':
+                local.update(st[1])
+            if st[0] in ('assign', 'assign_idx') and st[1] not in assigned and st[1] not in local:
                 assigned.append(st[1])
         if i in assigned or not assigned or any(s not in env for s in assigned):
             raise Unsupported('loop state')
@@ -1140,6 +1334,7 @@ class Gen:
             raise Unsupported('no final expression')
         lines = []
         env = dict(env)
+        self.rty = rty
         self.run(stmts, env, lines)
         t, ty = self.ex(final, env, rty)
         if ty != rty and not (ty == 64 and rty == 'choice') and not (ty == 'choice' and rty == 64):
@@ -1271,6 +1466,17 @@ FILES = [
              desc='impl<const LIMBS: usize> Uint<LIMBS>: add / sub / neg / compare loops over the limbs',
              want=['adc', 'wrapping_add', 'sbb', 'wrapping_sub', 'carrying_neg', 'wrapping_neg', 'is_nonzero', 'eq', 'lt', 'gt', 'lte']),
     ]),
+    # the shift / bit-query layer (C05): word shifts and bit counts of a `Limb`, the limb loops of the `Uint` shifts
+    ('Shifts.lean', ['CB.Gen.Prim', None, 'set_option linter.unusedVariables false'], [
+        dict(key='limb_shift', rel=['src/limb/shl.rs', 'src/limb/shr.rs', 'src/limb/bits.rs', 'src/limb/bit_or.rs'],
+             ns='CB.Gen.Shifts.Limb', self_ty='Limb', desc='impl Limb: word shifts, bit counts, bitor',
+             want=['shl', 'shl1', 'shr', 'shr1', 'bits', 'leading_zeros', 'trailing_zeros', 'trailing_ones', 'bitor'], use=['prim']),
+        dict(key='uint_shift', rel=['src/uint/shl.rs', 'src/uint/shr.rs'],
+             ns='CB.Gen.Shifts.Uint', self_ty='Uint', generic='LIMBS', limb_more=['limb_shift'],
+             desc='impl<const LIMBS: usize> Uint<LIMBS>: one-bit, sub-limb and variable-time shifts over the limbs',
+             want=['overflowing_shl1', 'shl_limb', 'shr1', 'shr1_with_carry', 'overflowing_shl_vartime', 'overflowing_shr_vartime',
+                   'shl_vartime', 'shr_vartime', 'wrapping_shl_vartime', 'wrapping_shr_vartime']),
+    ]),
 ]
 
 AUX = re.compile(r'\w+_loop\d+$')
@@ -1333,6 +1539,8 @@ def main():
                     parts.append(stext); parts.append('')
             ext = dict(choice=reg.get('choice'), limb=reg.get('limb'), uint=reg.get('uint'),
                        use=[reg[k] for k in u.get('use', []) if k in reg])
+            ext['limb_more'] = [reg[k] for k in u.get('limb_more', []) if k in reg]
+            ext['uint_more'] = [reg[k] for k in u.get('uint_more', []) if k in reg]
             try:
                 order, out, failed, sigs = translate_file(path, ns, self_ty, u.get('want'), u.get('private', False), ext)
             except (Unsupported, OSError) as ex:
